@@ -24,6 +24,8 @@
 //                           operation of this instance the hashes of its dirty blocks (all three trees) are recorded
 //                           and after it every one of them must still be in memory (deallocateBlock is the only
 //                           function that frees a block and only finalization calls it); saveTrees clears the bits
+//   btx <x> <v> <bparent> / vtbx <w> <x> <vparent> <lastKnownBtc>   (registry) a VTB in two steps: the BTC endorsement
+//                           transaction is mined into a BTC block now, the VBK pop transaction / containing block later
 // bootstrap configuration (keys of `begin`, default 0 = bootstrapWithGenesis): vbk_bootstrap_chain=k /
 //   btc_bootstrap_chain=k  the miner first mines v1..vk / b1..bk and EVERY instance of the session (inst, clone,
 //   fromsnap, reload) is bootstrapped with bootstrapWithChain(0, [genesis, 1..k]) - the way mainnet/testnet nodes are
@@ -474,6 +476,10 @@ struct StoreSession : public vw::Session {
     return "";
   }
 
+  // BTC endorsement transactions already mined into a BTC block whose VBK pop transaction does not exist yet
+  struct PendingBtx { BtcTx tx; BtcBlock block; std::string endorsed; };
+  std::map<std::string, PendingBtx> pendingBtx;
+
   // ------------------------------------------------------------------ bootstrap configuration
   int vboot = 0, bboot = 0;  // number of blocks after genesis in the VBK / BTC bootstrap chain (0: genesis only)
   void bootInstance(Instance& I) {
@@ -577,7 +583,7 @@ struct StoreSession : public vw::Session {
   std::string dispatch(const std::vector<std::string>& t) {
     const std::string& op = t[0];
     if (op == "begin") {
-      snaps.clear(); lastFinal.clear(); failedRemoved.clear(); guarded.clear();
+      snaps.clear(); lastFinal.clear(); failedRemoved.clear(); guarded.clear(); pendingBtx.clear();
       beginStore(t);
       return "ok";
     }
@@ -614,6 +620,34 @@ struct StoreSession : public vw::Session {
       }
       inst[t[2]] = std::move(n);
       return "ok";
+    }
+    if (op == "btx" && t.size() >= 4 && reg) {
+      // btx <x> <v> <bparent>: a BTC transaction endorsing VBK block v, mined NOW into a new BTC block on bparent;
+      // the VBK pop transaction (and with it the VTB) is created later by `vtbx` -> id of the BTC block of proof
+      if (!reg->vbk.count(t[2]) || !reg->btc.count(t[3]) || pendingBtx.count(t[1])) return "SKIP";
+      auto tx = reg->miner.createBtcTxEndorsingVbkBlock(reg->vbk.at(t[2]));
+      reg->tick();
+      auto* bb = reg->miner.mineBtcBlocks(1, *reg->bidx(t[3]), {tx});
+      if (bb == nullptr) return "SKIP miner-rejected";
+      pendingBtx[t[1]] = PendingBtx{tx, bb->getHeader(), t[2]};
+      return reg->regBtc(bb->getHeader());
+    }
+    if (op == "vtbx" && t.size() >= 5 && reg) {
+      // vtbx <w> <x> <vparent> <lastKnownBtc>: VTB w from the BTC transaction x; its containing VBK block is mined
+      // now on vparent, its BTC context starts after lastKnownBtc -> id of the containing VBK block
+      auto it = pendingBtx.find(t[2]);
+      if (it == pendingBtx.end() || !reg->vbk.count(t[3]) || !reg->btc.count(t[4]) || reg->vtb.count(t[1])) return "SKIP";
+      auto ptx = reg->miner.createVbkPopTxEndorsingVbkBlock(it->second.block, it->second.tx,
+                                                             reg->vbk.at(it->second.endorsed), reg->btc.at(t[4]).getHash());
+      reg->tick();
+      auto* vb = reg->miner.mineVbkBlocks(1, *reg->vidx(t[3]), std::vector<VbkPopTx>{ptx});
+      if (vb == nullptr) return "SKIP miner-rejected";
+      auto v = reg->miner.createVTB(vb->getHeader(), ptx);
+      reg->vtb[t[1]] = v;
+      auto wid = v.getId();
+      reg->names["id:" + vh::hex(wid.data(), wid.size())] = t[1];
+      reg->sweep();
+      return reg->regVbk(vb->getHeader());
     }
     if (op == "drop") { inst.erase(t[1]); guarded.erase(t[1]); return "ok"; }
     if (op == "on" && t.size() >= 3 && t[2] == "reload") {
